@@ -1,6 +1,7 @@
 package drivers
 
 import (
+	"encoding/hex"
 	"context"
 	"errors"
 	"fmt"
@@ -119,7 +120,7 @@ func (q *queueRun) submit(who int, name string, chain string, fuse int, grp int)
 	case name == "":
 		res = "empty"
 	}
-	q.c.Tr.Emit("QSubmit", world.F{"node": "seq", "who": who, "c": name, "res": res, "grp": grp})
+	q.c.Tr.Emit("QSubmit", world.F{"node": "seq", "who": who, "c": name, "k": batchHash(q.content(name)), "res": res, "grp": grp})
 }
 
 func (q *queueRun) next(fuse int) {
@@ -137,7 +138,7 @@ func (q *queueRun) next(fuse int) {
 	if fuse >= 0 {
 		q.kv.Disarm()
 	}
-	c, r := "", "ok"
+	c, r, k := "", "ok", ""
 	switch {
 	case crashed:
 		r = "crash"
@@ -148,8 +149,9 @@ func (q *queueRun) next(fuse int) {
 		if len(res.Batch.Transactions) != 2 {
 			c = c + "?"
 		}
+		k = batchHash(res.Batch.Transactions)
 	}
-	q.c.Tr.Emit("QNext", world.F{"node": "seq", "c": c, "res": r})
+	q.c.Tr.Emit("QNext", world.F{"node": "seq", "c": c, "k": k, "res": r})
 }
 
 func (q *queueRun) drain() {
@@ -297,4 +299,21 @@ func RunQueue(c *Ctx) {
 		q.drain()
 		c.Count("concurrent", 1)
 	}
+}
+
+// batchHash is the content identity the queue itself uses in its database keys (first 10 hex digits).
+func batchHash(txs [][]byte) string {
+	if len(txs) == 0 {
+		return ""
+	}
+	b := coresequencer.Batch{Transactions: txs}
+	h, err := b.Hash()
+	if err != nil {
+		return "?"
+	}
+	s := hex.EncodeToString(h)
+	if len(s) > 10 {
+		s = s[:10]
+	}
+	return s
 }
